@@ -7,8 +7,8 @@ Contracts:
                               block's pack() receives self.session_key (and the caller's encryptors); result =
                               BigConcat(BE1(tag) BE1(|p|) p) + 00 00            (lengths > 255: OverflowError)
  Bec2File.to_binary           the key handed to the body writer is the same self.session_key, offset = header length
- Bec2File.unpack_auth_blocks  on every header shape of up to 3 blocks over {decryptable, known-but-no-decryptor,
-                              unknown tag} with symbolic tags/values/keys: returned key == key of every decryptable
+ Bec2File.unpack_auth_blocks  ANY header (any number of TLVs, modular loop contract, C07/unpack_auth_blocks.any-header; the
+                              shapes of up to 3 blocks are additionally executed end to end): returned key == key of every decryptable
                               block; two decryptable blocks with different keys => Bec2FileFormatError; a block without
                               decryptor is kept as UnknownAuthBlock(tag, value) and UnknownAuthBlock.pack returns value
                               unchanged => the TLV is re-written byte for byte
@@ -32,8 +32,8 @@ MOD = "bec2format.bec2file"
 ASSUMPTIONS = common.ASSUMPTIONS_AES + ASSUMPTIONS_ECC + [
     "os.urandom / SigningKey.generate produce independent uniform draws (not provable here); the contract is 'one draw "
     "per object / per call, no reuse of a stored value'",
-    "unpack_auth_blocks is proved for header shapes of up to 3 blocks (closed-world kinds, symbolic contents): bounded in "
-    "the number of blocks, stated",
+    "unpack_auth_blocks.any-header: the auth-block classes are seen through their contract (unpack returns (block, None | "
+    "16-byte key) or raises KeyError / NotImplementedError / a format error), which the per-class proofs of C02 / C14 establish",
 ]
 I = z3.IntSort()
 TAGF = z3.Function("TAGF", I, I)
@@ -269,6 +269,168 @@ for _s in SHAPES:
     proof("C07/unpack_auth_blocks[%s]" % (",".join(_s) or "empty"),
           functions=[(MOD, "Bec2File.unpack_auth_blocks"), (MOD, "UnknownAuthBlock.pack"), (MOD, "UnknownAuthBlock.__init__")],
           family=fam_unpack(_s), thorough_only=len(_s) == 3 and _s.count("dec") < 2)(_p)
+
+
+# ---------------------------------------------------------------------------------------
+# unpack_auth_blocks for ANY header (any number of TLVs, any bytes): modular loop contract.  The block classes are seen
+# through their contract (unpack returns (block, None | 16-byte key) or raises KeyError / NotImplementedError = "no
+# decryptor" or a format error); ghosts: ghave/gkey = the key of the decryptable blocks seen so far.
+#   invariant   common_session_key is None <=> no decryptable block so far; otherwise it equals gkey
+#   per block   a block that unwraps to a key different from gkey makes the function raise Bec2FileFormatError;
+#               a block without decryptor / with an unknown tag is appended as UnknownAuthBlock(tag, value) (byte for byte)
+#   post        the returned key is the common key of ALL decryptable blocks (None if there is none)
+
+def fam_any(seed, tier):
+    import random
+    rnd = random.Random(seed)
+    for _ in range(40 if tier == "quick" else 400):
+        n = rnd.randrange(0, 9)
+        k0 = bytes(rnd.randrange(256) for _ in range(16))
+        blocks = []
+        for i in range(n):
+            kind = rnd.choice(["dec", "dec", "nodec", "unk", "nokey"])
+            tag = rnd.choice([1, 2, 3]) if kind != "unk" else rnd.choice([4, 7, 200, 255])
+            key = k0 if rnd.random() < 0.85 else bytes(rnd.randrange(256) for _ in range(16))
+            blocks.append(dict(kind=kind, tag=tag, val=bytes(rnd.randrange(256) for _ in range(rnd.choice([0, 1, 5, 80]))), key=key))
+        yield dict(blocks=blocks)
+
+
+@proof("C07/unpack_auth_blocks.any-header", functions=[(MOD, "Bec2File.unpack_auth_blocks"), (MOD, "UnknownAuthBlock.__init__"),
+                                                       (MOD, "UnknownAuthBlock.pack")], family=fam_any)
+def unpack_any(vc):
+    M = vc.module(MOD)
+    if not vc.symbolic:
+        blocks = vc._get("blocks")
+        it = iter(blocks)
+        cur = {}
+
+        class Stub:
+            @staticmethod
+            def unpack(raw, ext_encryptors=()):
+                b = cur["b"]
+                if b["kind"] == "nodec":
+                    raise KeyError("No matching Encryptor")
+                return ("BLOCK", id(b)), (b["key"] if b["kind"] == "dec" else None)
+        # the stubs need to know which block is being unpacked: feed the header one TLV at a time is not possible,
+        # so the value carries its index
+        hdr = b""
+        for i, b in enumerate(blocks):
+            b["val"] = bytes([i]) + b["val"]
+            hdr += bytes([b["tag"], len(b["val"])]) + b["val"]
+
+        class Stub2:
+            @staticmethod
+            def unpack(raw, ext_encryptors=()):
+                cur["b"] = blocks[raw[0]]
+                return Stub.unpack(raw, ext_encryptors)
+        old = M.Bec2File.AUTH_BLOCK_CLS_MAP
+        M.Bec2File.AUTH_BLOCK_CLS_MAP = {1: Stub2, 2: Stub2, 3: Stub2}
+        try:
+            out = vc.call(M.Bec2File.unpack_auth_blocks, M.BytesReader(hdr + b"\x00\x00BODY", "x"), [])
+        finally:
+            M.Bec2File.AUTH_BLOCK_CLS_MAP = old
+        keys = [b["key"] for b in blocks if b["kind"] == "dec"]
+        agree = len(set(keys)) <= 1
+        if out.returned:
+            got, key = out.value
+            vc.prove("post.accepted=>all-decryptable-blocks-agree", agree)
+            vc.prove("post.returned-key=common-key", key == (keys[0] if keys else None))
+            ok = len(got) == len(blocks)
+            for b, g in zip(blocks, got):
+                if b["kind"] in ("nodec", "unk"):
+                    ok = ok and isinstance(g, M.UnknownAuthBlock) and g.tag == b["tag"] and g.binary_value == b["val"] \
+                        and g.pack(b"k", []) == b["val"]
+            vc.prove("post.undecryptable-kept-byte-for-byte-in-order", ok)
+        else:
+            vc.prove("post.rejected-only-when-keys-disagree", not agree and out.raised(M.Bec2FileFormatError), repr(out.exc))
+        return
+    from contracts.C01 import setpos
+    from pyvc.abscoll import AbsList
+    n = vc.int("n", 0, 1 << 20)
+    data = vc.bytes("hdr", n)
+    vc.allow_symbolic_text_in_diagnostics()
+    saved = {}
+
+    def contract_unpack(value, encs=()):
+        o = vc.fresh_int("outcome", 0, 4)
+        saved["value"] = value
+        if o == 0:
+            saved["outcome"] = "nodec"
+            raise KeyError("No matching Encryptor")
+        if o == 1:
+            saved["outcome"] = "nodec"
+            raise NotImplementedError()
+        if o == 2:
+            saved["outcome"] = "format-error"
+            raise M.Bec2FileFormatError("by contract")
+        blk = object()
+        saved["block"] = blk
+        if o == 3:
+            saved["outcome"], saved["key"] = "nokey", None
+            return blk, None
+        saved["outcome"], saved["key"] = "key", vc.fresh_bytes("sk", 16)
+        return blk, saved["key"]
+
+    class Cls:
+        unpack = staticmethod(contract_unpack)
+
+    from pyvc.models import SDict
+    vc.patch(M.Bec2File, "AUTH_BLOCK_CLS_MAP", SDict({1: Cls, 2: Cls, 3: Cls}))
+
+    def hv_key(L):
+        saved.clear()
+        saved["pre_have"], saved["pre_key"] = L.ghave, L.gkey
+        return None if L.ghave == 0 else L.gkey
+
+    def nxt(L):
+        if saved.get("outcome") == "key":
+            return dict(ghave=1, gkey=saved["key"])
+        return {}
+
+    def inv(L):
+        c = L.common_session_key
+        out = [("cursor-in-range", vc.And(0 <= L.raw_rdr.tell(), L.raw_rdr.tell() <= n)),
+               ("ghost-range", vc.And(0 <= L.ghave, L.ghave <= 1)),
+               ("key-state", (L.ghave == 0) if c is None else vc.And(L.ghave == 1, c == L.gkey))]
+        if "outcome" in saved:          # end of a generic iteration (trivially true at init / before the iteration)
+            if saved["outcome"] == "key":
+                out.append(("a-block-with-another-key-is-not-accepted",
+                            vc.Or(saved["pre_have"] == 0, saved["key"] == saved["pre_key"])))
+            last = L.auth_blocks.tail[-1] if L.auth_blocks.tail else None
+            if saved["outcome"] in ("key", "nokey"):
+                out.append(("decryptable-block-recorded", last is saved["block"]))
+            else:
+                out.append(("undecryptable-kept-as-UnknownAuthBlock(tag,value)",
+                            vc.And(isinstance(last, M.UnknownAuthBlock), last.tag == L.tlv_tag,
+                                   last.binary_value == L.tlv_value, last.pack(b"any", []) == L.tlv_value)
+                            if isinstance(last, M.UnknownAuthBlock) else False))
+        elif "pre_have" in saved and getattr(L, "tlv_tag", None) is not None and L.auth_blocks.tail:
+            # unknown tag: no class in the map, the stub was not called
+            last = L.auth_blocks.tail[-1]
+            out.append(("unknown-tag-kept-as-UnknownAuthBlock(tag,value)",
+                        vc.And(last.tag == L.tlv_tag, last.binary_value == L.tlv_value)
+                        if isinstance(last, M.UnknownAuthBlock) else False))
+        return out
+
+    vc.loop(MOD, "Bec2File.unpack_auth_blocks", 0, ghost_init=dict(ghave=0, gkey=bytes(16)), ghost_next=nxt,
+            havoc=dict(raw_rdr=lambda L: setpos(L.raw_rdr, vc.fresh_int("pos", 0, 1 << 20)),
+                       common_session_key=hv_key,
+                       auth_blocks=lambda L: AbsList("authblocks", vc.fresh_int("nblocks", 0, 1 << 20), lambda j: object()),
+                       ext_encryptors="keep", cls="keep"),
+            inv=inv, variant=lambda L: core.toint(n) - core.toint(L.raw_rdr.tell()))
+    out = vc.call(M.Bec2File.unpack_auth_blocks, M.BytesReader(data, "x"), [])
+    if out.returned:
+        key = out.value[1]
+        if "pre_have" in saved:
+            vc.prove("post.returned-key=common-key-of-the-decryptable-blocks",
+                     (saved["pre_have"] == 0) if key is None else vc.And(saved["pre_have"] == 1, key == saved["pre_key"]))
+        else:
+            vc.prove("post.returned-key=common-key-of-the-decryptable-blocks", key is None)
+        vc.cover("accepted")
+    elif out.raised(M.Bec2FileFormatError) and saved.get("outcome") == "key":
+        vc.prove("post.rejected-only-when-keys-disagree",
+                 vc.And(saved["pre_have"] == 1, vc.Not(saved["key"] == saved["pre_key"])))
+        vc.cover("rejected")
 
 
 # ---------------------------------------------------------------------------------------
